@@ -49,6 +49,7 @@ func checkC02(ctx *Ctx, r *Report) {
 	c09TypedConstantSetup(ctx, r)
 	c02PythonValueFormatter(ctx, r)
 	c02GoImportsUsed(ctx, r)
+	c02PythonIdentifierCharacters(ctx, r)
 }
 
 // kindConsts: the constants of ast.Kind / ast.ScalarKind.
@@ -1795,4 +1796,65 @@ func c02GoImportsUsed(ctx *Ctx, r *Report) {
 	}
 	r.Count("import registrations in the Go templates", n)
 	r.Floor("import registrations in the Go templates", 20)
+}
+
+// c02PythonIdentifierCharacters: a wire name is any string (`@type`, `a.b`, `1st`); a Python identifier is not. The
+// case conversions of the python jenny only understand spaces, `-` and `_`: every formatter that produces an attribute,
+// an argument, an enum member or a local name from a wire name passes it through the character sanitiser first, and
+// the name of the local decoding map is derived from a formatted identifier, not from the raw field name.
+func c02PythonIdentifierCharacters(ctx *Ctx, r *Report) {
+	p := ctx.Pkg("internal/jennies/python")
+	san := ctx.LookupFunc("internal/jennies/python", "identifierCharacters")
+	if p == nil {
+		r.Undecided("anchor lost: internal/jennies/python")
+		return
+	}
+	info := p.TypesInfo
+	for _, name := range []string{"formatIdentifier", "formatEnumMemberName"} {
+		fn := ctx.LookupFunc("internal/jennies/python", name)
+		fd, _ := ctx.DeclOf(fn)
+		if fd == nil || fd.Body == nil {
+			r.Undecided("anchor lost: python.%s", name)
+			continue
+		}
+		calls := false
+		ast.Inspect(fd.Body, func(m ast.Node) bool {
+			if c, ok := m.(*ast.CallExpr); ok && san != nil && callee(info, c) == san {
+				calls = true
+			}
+			return true
+		})
+		r.Check(calls, "skeleton/python-identifier-characters", "python."+name+" sanitises the characters of the name", fd.Pos(), "the name goes through identifierCharacters",
+			"python."+name+" only changes the case of the name: a property named `@type`, `a.b` or `1st` (an enum member `1h`) is written as it is where an identifier is needed — SyntaxError when the module is imported, while the run succeeds and the Go output handles the same schema")
+	}
+	// the hint that names local variables of from_json
+	fromJSON := ctx.LookupMethod("internal/jennies/python", "RawTypes", "fromJSONForType")
+	n := 0
+	ctx.AllFuncDecls(func(pk *packages.Package, fd *ast.FuncDecl, obj *types.Func) {
+		if pk != p || fd.Body == nil {
+			return
+		}
+		ast.Inspect(fd.Body, func(m ast.Node) bool {
+			c, ok := m.(*ast.CallExpr)
+			if !ok || fromJSON == nil || callee(info, c) != fromJSON || len(c.Args) != 4 {
+				return true
+			}
+			hint := ast.Unparen(c.Args[3])
+			if _, isParam := hint.(*ast.Ident); isParam {
+				return true // forwarded
+			}
+			n++
+			formatted := false
+			if hc, ok := hint.(*ast.CallExpr); ok {
+				if f := callee(info, hc); f != nil && f.Name() == "formatIdentifier" {
+					formatted = true
+				}
+			}
+			r.Check(formatted, "skeleton/python-identifier-characters", ctx.FuncName(obj)+" names from_json locals after a formatted identifier", c.Pos(), "the hint is formatIdentifier(field name)",
+				"the local names of from_json (decoding_map_<hint>…) are built from "+exprString(hint)+": for a field named `my-pet` the module holds `decoding_map_my-pet_union: …` — SyntaxError")
+			return true
+		})
+	})
+	r.Count("from_json hints built from field names", n)
+	r.Floor("from_json hints built from field names", 1)
 }
